@@ -33,8 +33,8 @@ from pyiron_workflow.nodes.standard import UserInput as _UserInput
 
 PROP = "C18"
 IMPORTS = "Base Inject"
-RULE = ("1-3 user nodes (UserInput / two-output function node / single-output MACRO node (a composite; node.attr and "
-        "node[item] mean child access there and are written on its channel instead); values from a pool of None, bools, ints, floats, "
+RULE = ("1-3 user nodes (UserInput / two-output function node / single-output MACRO node (a composite; node[<node or "
+        "channel>] is not written on it: the child lookup iterates the key and never returns); values from a pool of None, bools, ints, floats, "
         "strings, lists, tuples, sets, dicts, slices; already run or not), inside a Workflow (75%) or parentless, "
         "and a program of 2-8 written operations over all 30 entry points + channel-containing slices + "
         "unsupported reflected operators: receivers are channels, single-output nodes, the two-output node "
@@ -212,9 +212,29 @@ DUNDER = {"getattr": "__getattr__", "getitem": "__getitem__", "lt": "__lt__", "l
           "invert": "__invert__", "int": "int", "float": "float", "round": "__round__"}
 MIRROR = {"lt": operator.gt, "le": operator.ge, "gt": operator.lt, "ge": operator.le, "ne": operator.ne}
 CHAN_LABELS = {"ui": ["user_input"], "two": ["p", "q"], "mac": ["out"]}
-# a composite answers node.attr and node[item] with its CHILDREN (LexicalParent.__getattr__ / Composite.__getitem__),
-# so these three are written on the macro node's channel, never on the node itself
+# a composite answers node.attr, node[item] and node[a:b] with its CHILDREN (LexicalParent.__getattr__ /
+# Composite.__getitem__) instead of injecting: known finding C18-composite-child-access-shadows-item-and-attribute
 CHILD_ACCESS = ("getattr", "getitem")
+
+
+def _child_access(key):
+    """what a composite's child lookup does with a key that names no child (dict + difflib only)"""
+    import difflib
+    try:
+        {}[key]
+    except KeyError:
+        difflib.get_close_matches(key, [])
+        raise AttributeError(key) from None
+
+
+PYFUN["childaccess"] = _child_access
+
+
+def _on_composite(case, s):
+    """the cause predicate of the finding: attribute access, item access or slicing whose receiver is a
+    single-output composite node itself (not its channel)"""
+    return (s["k"] == "slice" or (s["k"] == "op" and s["e"] in CHILD_ACCESS)) and s["recv"][0] == "node" \
+        and case["users"][s["recv"][1]]["kind"] == "mac"
 
 
 def _tolist(x):
@@ -357,8 +377,10 @@ def near_identical(rng, users, step, theme):
 
 
 def _mac_child_access(users, s):
-    if (s["k"] == "slice" or (s["k"] == "op" and s["e"] in CHILD_ACCESS)) and s["recv"][0] == "node" \
-            and users[s["recv"][1]]["kind"] == "mac":
+    # composite[<node or channel>] is not generated: the child lookup hands the key to difflib, which iterates it,
+    # and iterating a single-output node injects GetItem nodes for 0, 1, 2, ... without end
+    if s["k"] == "op" and s["e"] == "getitem" and s["recv"][0] == "node" and users[s["recv"][1]]["kind"] == "mac" \
+            and s["others"][0][0] != "raw":
         s = dict(s, recv=["chan", s["recv"][1], 0])
     return s
 
@@ -748,12 +770,13 @@ def model_view(case, obs):
 
 
 # ---- model term -------------------------------------------------------------------------------------
-def _ref_coq(ref):
+def _ref_coq(ref, case=None):
     k = ref[0]
     if k == "chan":
         return f"(RChan {cn(ref[1])} {cn(ref[2])})"
     if k == "node":
-        return f"(RNode {cn(ref[1])})"
+        comp = case is not None and case["users"][ref[1]]["kind"] == "mac"
+        return f"({'RComp' if comp else 'RNode'} {cn(ref[1])})"
     if k == "raw":
         return f"(RRaw {cs(enc(build_val(ref[1])))})"
     if k == "res":
@@ -804,6 +827,8 @@ def _reach_table(case):
 
     for i, s in enumerate(case["steps"]):
         own = {}
+        if _on_composite(case, s) and s["k"] == "op" and s["others"][0][0] == "raw":
+            t.call("childaccess", cands(s["others"][0]))
         if s["k"] == "op":
             fname = ENTRIES[s["e"]][3]
             lists = [cands(s["recv"])] + [cands(r) for r in s["others"]]
@@ -860,12 +885,12 @@ def model_term(case):
     steps = []
     for s in case["steps"]:
         if s["k"] == "op":
-            steps.append(f"(SOp {ENTRIES[s['e']][0]} {_ref_coq(s['recv'])} {cl(_ref_coq(r) for r in s['others'])} "
+            steps.append(f"(SOp {ENTRIES[s['e']][0]} {_ref_coq(s['recv'], case)} {cl(_ref_coq(r, case) for r in s['others'])} "
                          f"{cn((1 + int(s.get('retry', 0))) if s.get('pull') else 0)})")
         elif s["k"] == "slice":
-            steps.append(f"(SSlice {_ref_coq(s['recv'])} {' '.join(_ref_coq(r) for r in s['m'])} {cn((1 + int(s.get('retry', 0))) if s.get('pull') else 0)})")
+            steps.append(f"(SSlice {_ref_coq(s['recv'], case)} {' '.join(_ref_coq(r, case) for r in s['m'])} {cn((1 + int(s.get('retry', 0))) if s.get('pull') else 0)})")
         else:
-            steps.append(f"(SUnsup {_ref_coq(s['recv'])} {_ref_coq(s['other'])})")
+            steps.append(f"(SUnsup {_ref_coq(s['recv'], case)} {_ref_coq(s['other'], case)})")
     if _is_macro(case):
         return f"t_macro {rows_c} {strs_c} {reprs_c} {users_c} {cl(steps)} {cn(case['out'])}"
     return f"t_run {rows_c} {strs_c} {reprs_c} {cb(case['parent'])} {users_c} {cl(steps)}"
@@ -1351,7 +1376,9 @@ def known(case, obs, verdict):
     for i, sig, msg in vs:
         fid = None
         clo = sorted(_closure(case, i))
-        if sig in ("shared-node", "child-count"):
+        if sig in ("exception", "malformed") and _on_composite(case, case["steps"][i]) and obs[i][0][0] == "raise":
+            fid = "C18-composite-child-access-shadows-item-and-attribute"
+        elif sig in ("shared-node", "child-count"):
             fid = coll.get(i)
         elif sig in ("value", "exception"):
             fid = next((coll[k] for k in clo if k in coll), None)
